@@ -202,8 +202,13 @@ class Configuration(object):
                 rep += "   {}: {}\n".format(subkey, self[key][subkey])
         return rep
 
-    def __setitem__(self, *args):
-        self._cfg.__setitem__(*args)
+    def __setitem__(self, sec, value):
+        if not isinstance(value, ConfigurationDict):
+            # keep key verification, type conversion and case-insensitivity
+            # (e.g. `config["user"] = {"inlet": True}`)
+            section = None if self.disable_checks else sec
+            value = ConfigurationDict(section, value)
+        self._cfg.__setitem__(sec, value)
 
     def _init_default_filter_values(self):
         """Set default initial values
